@@ -7,16 +7,18 @@ MUTANTS = [
     # c08-executing-thread-not-reset: no effect on anything the statement speaks about (equivalent)
     ('c08-exit-code-swallowed', 'C08', M, "        if code is not None:\n            raise SystemExit(code)\n\n    def processTask", "        if code is not None and code != 3:\n            raise SystemExit(code)\n\n    def processTask"),
     # the body of stop() after the repairs 43ced2c / 7e26f8d
-    ('c08-stopped-fired-twice', 'C08', M, "        self.fire(stopped(self))\n\n        self._running = False\n", "        self.fire(stopped(self))\n        self.fire(stopped(self))\n\n        self._running = False\n"),
-    ('c08-stop-when-not-running-fires', 'C08', M, "        if not self.running:\n            return\n\n        # queue `stopped`", "        # queue `stopped`"),
-    ('c08-stopped-not-fired', 'C08', M, "        self.fire(stopped(self))\n\n        self._running = False\n", "        self._running = False\n"),
-    ('c08-stop-clears-queue', 'C08', M, "        self.fire(stopped(self))\n\n        self._running = False\n", "        self._queue._queue.clear()\n        self.fire(stopped(self))\n\n        self._running = False\n"),
+    ('c08-stopped-fired-twice', 'C08', M, "            self.fire(stopped(self))\n\n            self._running = False\n", "            self.fire(stopped(self))\n            self.fire(stopped(self))\n\n            self._running = False\n"),
+    ('c08-stop-when-not-running-fires', 'C08', M, "        if not self.running:\n            return\n\n        # For a loop running", "        # For a loop running"),
+    ('c08-stopped-not-fired', 'C08', M, "            self.fire(stopped(self))\n\n            self._running = False\n", "            self._running = False\n"),
+    ('c08-stop-clears-queue', 'C08', M, "            self.fire(stopped(self))\n\n            self._running = False\n", "            self._queue._queue.clear()\n            self.fire(stopped(self))\n\n            self._running = False\n"),
     ('c08-keyboardinterrupt-not-mapped', 'C08', M, "            except KeyboardInterrupt:\n                self.stop()\n            except SystemExit as e:\n                # stop; run()",
      "            except SystemExit as e:\n                # stop; run()"),
     ('c08-systemexit-in-task-ignored', 'C08', M, "        except KeyboardInterrupt:\n            self.stop()\n        except SystemExit as e:\n            if e.code is not None:\n                self.root._exitcode = e.code\n            self.stop()\n        except BaseException:\n            self.unregisterTask((event, task, parent))",
      "        except (KeyboardInterrupt, SystemExit):\n            pass\n        except BaseException:\n            self.unregisterTask((event, task, parent))"),
     # reverts of the repairs
-    ('c08-revert-stopped-queued-before-flag', 'C08', M, "        self.fire(stopped(self))\n\n        self._running = False\n", "        self._running = False\n\n        self.fire(stopped(self))\n"),
+    ('c08-revert-stopped-queued-before-flag', 'C08', M, "        with self.root._lock:\n            self.fire(stopped(self))\n\n            self._running = False\n", "        self._running = False\n\n        self.fire(stopped(self))\n"),
+    ('c08-stop-steps-not-under-lock', 'C08', M, "        with self.root._lock:\n            self.fire(stopped(self))\n\n            self._running = False\n", "        self.fire(stopped(self))\n\n        self._running = False\n"),
+    ('c08-stop-flag-first-under-lock', 'C08', M, "            self.fire(stopped(self))\n\n            self._running = False\n", "            self._running = False\n\n            self.fire(stopped(self))\n"),
     ('c08-revert-exitcode-deferred-dispatcher', 'C08', M, "                if e.code is not None:\n                    self.root._exitcode = e.code\n                self.stop()\n", "                self.stop(e.code)\n"),
     ('c08-revert-exitcode-deferred-task', 'C08', M, "            if e.code is not None:\n                self.root._exitcode = e.code\n            self.stop()\n", "            self.stop(e.code)\n"),
     ('c08-exitcode-not-raised-at-end-of-run', 'C08', M, "        if code is not None:\n            raise SystemExit(code)\n", "        if code is not None and False:\n            raise SystemExit(code)\n"),
